@@ -115,7 +115,7 @@ func runC15(ctx *Ctx) *Result {
 	w := world.New(srv)
 	perCase := 6
 	reported := map[string]bool{}
-	for i := 0; i < ctx.N; i++ {
+	for i := ctx.Lo; i < ctx.hi(); i++ {
 		if !ctx.mine(i) {
 			continue
 		}
